@@ -106,6 +106,33 @@ Definition write_inplace (old : entry) (new : list A) : entry * option (list A) 
 (* what a run into an empty directory leaves at the path *)
 Definition fresh_type (new : list A) : entry := Reg new.
 Definition fresh_link (path : nat) : entry := Link path.
+
+(* ---- a whole run in the copy modes: the output directory as a map from paths to entries; asn1c writes its files in a fixed
+   order, each through one of the three operations (the same path may be written more than once: converter-example.c is
+   copied for both example makefiles, pdu_collection.c is generated twice) *)
+Definition dir : Type := nat -> entry.
+Definition empty_dir : dir := fun _ => Absent.
+Definition upd (d : dir) (p : nat) (e : entry) : dir := fun q => if Nat.eqb q p then e else d q.
+
+Inductive wop : Type :=
+| WType (new : list A)
+| WCopy (src : list A)
+| WInplace (new : list A).
+
+Definition content_of (w : wop) : list A := match w with WType n => n | WCopy n => n | WInplace n => n end.
+
+Definition apply_op (d : dir) (pw : nat * wop) : dir :=
+  match pw with
+  | (p, WType n) => upd d p (save_type (d p) n)
+  | (p, WCopy n) => upd d p (copy_skel (d p) n)
+  | (p, WInplace n) => upd d p (fst (write_inplace (d p) n))
+  end.
+
+Definition run_dir (d : dir) (outs : list (nat * wop)) : dir := fold_left apply_op outs d.
+
+(* no symbolic link sits where a file is rewritten in place *)
+Definition nolink (d : dir) (outs : list (nat * wop)) : Prop :=
+  forall p n t, In (p, WInplace n) outs -> d p <> Link t.
 End Files.
 
 (* instance for the front end: bytes as N *)
